@@ -77,7 +77,12 @@ RULE = ('sweep: every BaseException subclass exported by builtins (69 names on 3
         'shapes). Class hooks: user classes with a __setattr__ refusing every / dunder / other '
         'names and with __init_subclass__(cls, *, code[=None], **kw) (generated; exhaustive '
         'sweep class-hooks: 6 hook sets x 3 class shapes x 5 link shapes x plain / `from` '
-        'raise). Non-trivial = '
+        'raise), plus hooks rejecting the proxy subclass with ValueError / RuntimeError / KeyError '
+        'and by-name registries that reject the SECOND subclass of a name; optional `again`: an '
+        'exception of the same class crossed a configurable earlier in the process. Slots: 1-3 '
+        'slots in any declaration order with any subset unset, optionally split over a base '
+        'class and its subclass (exhaustive sweep slots: 6 orders x 8 subsets + 4 base/subclass '
+        'orders x 15 subsets). Non-trivial = '
         'the original has a public data attribute besides args, or its constructor has required '
         'arguments, or >=2 configurables are on the stack. Distinct = distinct case JSON.')
 ASSUMPTIONS = [
@@ -135,7 +140,8 @@ ASSUMPTIONS = [
     'replaces such an exception by the AttributeError regardless of Gin. The probe handlers skip '
     'the changes the class refuses',
     'user classes may define __init_subclass__ with an optional keyword (everything asserted) or '
-    'a REQUIRED keyword: no subclass can be derived for the latter, so the same class, data, '
+    'a REQUIRED keyword, or a hook raising ValueError / RuntimeError / KeyError (always, or for '
+    'the second subclass of a name): no subclass can be derived for these, so the same class, data, '
     'chaining and traceback are asserted, the message must still start with the original message, '
     'but the extension naming the configurable and the scope is NOT required for that class',
 ]
@@ -169,6 +175,9 @@ FLOORS = {
     'user:setattr-refuses-dunder': (0.03, 'user:generated'),
     'user:setattr-refuses-public': (0.03, 'user:generated'),
     'user:init-subclass-required': (0.04, 'user:generated'),
+    'user:init-subclass-rejects-non-TypeError': (0.04, 'user:generated'),
+    'user:unset-slot-declared-before-a-set-one': (0.03, 'user:generated'),
+    'same-class-crossed-before': 0.03,
     'user:init-subclass-optional': (0.04, 'user:generated'),
     'user:str-needs-field': (0.04, 'user:generated'),
     'str-state-changed-after-crossing': 0.01,
@@ -346,6 +355,12 @@ PROP_KINDS = ['args', 'nargs', 'const', 'stored', 'raises', 'raises2', 'attr', '
 _val = st.sampled_from(VALUES)
 
 
+# __init_subclass__ hooks that reject Gin's proxy subclass with something other than TypeError;
+# the registry kinds accept the first subclass of a name and reject the second
+INITSUB_REJECTING = ['ValueError', 'RuntimeError', 'KeyError', 'registry-ValueError',
+                     'registry-RuntimeError']
+
+
 @st.composite
 def _user_spec(draw):
   group = draw(st.integers(0, 11)) == 0
@@ -383,7 +398,13 @@ def _user_spec(draw):
       'new': new,
       'init': init,
       'store': draw(st.booleans()),
-      'slots': draw(st.sampled_from([[], [], ['sa'], ['sa', 'sb']])),
+      # declaration order matters (vars(cls) keeps it); any subset may be left unset
+      'slots': draw(st.sampled_from([[], [], [], ['sa'], ['sa', 'sb'], ['sb', 'sa'],
+                                     ['sa', 'sb', 'sc'], ['sc', 'sa', 'sb'], ['sb', 'sc', 'sa']])),
+      'unset': draw(st.lists(st.sampled_from(['sa', 'sb', 'sc', 'ba', 'bb']), max_size=3,
+                             unique=True).map(sorted)),
+      # slots declared by an intermediate base class UBase(<bases>) of UExc
+      'baseslots': draw(st.sampled_from([[], [], [], [], ['ba'], ['ba', 'bb'], ['bb', 'ba']])),
       'attrs': attrs,
       'post': post,
       'cattrs': [[c, draw(_val)] for c in cnames],
@@ -395,8 +416,9 @@ def _user_spec(draw):
       'kwv': draw(_val),
       # __setattr__ refusing assignment (to every name / to dunder names / to other names), and
       # __init_subclass__ with a required / an optional keyword
-      'setattr': draw(st.sampled_from([None] * 9 + ['all', 'dunder', 'public'])),
-      'initsub': draw(st.sampled_from([None] * 8 + ['required', 'optional'])),
+      'setattr': draw(st.sampled_from([None] * 8 + ['all', 'dunder', 'public'] * 2)),
+      'initsub': draw(st.sampled_from([None] * 12 + ['required'] * 2 + ['optional'] * 3 +
+                                      INITSUB_REJECTING)),
   }
 
 
@@ -416,9 +438,15 @@ def render_user(spec):
   if spec['kwonly']:
     assigns.append('self.kw = kw')
   attrs = [(a, v) for a, v in spec['attrs'] if not (group and a in ('message', 'exceptions'))]
-  assigns += [f'self.{s} = {("slot-" + s)!r}' for s in spec['slots']]
+  baseslots = [] if group else list(spec.get('baseslots') or [])
+  unset = set(spec.get('unset') or [])
+  assigns += [f'self.{s} = {("slot-" + s)!r}' for s in baseslots + spec['slots']
+              if s not in unset]
   assigns += [f'self.{a} = {v!r}' for a, v in attrs]
-  body = [f'class UExc({", ".join(spec["bases"])}):']
+  body = []
+  if baseslots:
+    body += [f'class UBase({", ".join(spec["bases"])}):', f'  __slots__ = {tuple(baseslots)!r}']
+  body.append(f'class UExc({"UBase" if baseslots else ", ".join(spec["bases"])}):')
   if spec['slots']:
     body.append(f'  __slots__ = {tuple(spec["slots"])!r}')
   for c, v in spec['cattrs']:
@@ -447,7 +475,7 @@ def render_user(spec):
         'const': "'pc'",
         'stored': "('st', self.p0)" if (spec['store'] and n) else "'pc2'",
         'attr': f'self.{first_attr}' if first_attr else "'pc3'",
-        'slot': f'self.{spec["slots"][0]}' if spec['slots'] else "'pc4'",
+        'slot': f'self.{(spec["slots"] + baseslots)[0]}' if spec['slots'] + baseslots else "'pc4'",
         'fields': "[getattr(self, f, 'absent') for f in ('errno', 'filename', 'value', 'name', "
                   "'msg', 'message', 'late')]",
     }.get(kind)
@@ -480,11 +508,23 @@ def render_user(spec):
   if refuse:
     body += ['  def __setattr__(self, name, value):', f'    if {refuse}:',
              "      raise AttributeError('immutable')", '    super().__setattr__(name, value)']
-  if spec.get('initsub'):
+  hook = spec.get('initsub')
+  if hook in INITSUB_REJECTING:
+    err = hook.split('-')[-1]
+    body += ['  _registry = {}', '  def __init_subclass__(cls, **kwargs):',
+             '    super().__init_subclass__(**kwargs)']
+    if hook.startswith('registry'):
+      # an error hierarchy registering its subclasses by name: a second one is a duplicate
+      body += ['    if cls.__name__ in UExc._registry:',
+               f"      raise {err}('duplicate error class name %r' % cls.__name__)",
+               '    UExc._registry[cls.__name__] = cls']
+    else:
+      body.append(f"    raise {err}('UExc cannot be subclassed')")
+  elif hook:
     kw = 'code' if spec['initsub'] == 'required' else 'code=None'
     body += [f'  def __init_subclass__(cls, *, {kw}, **kwargs):',
              '    super().__init_subclass__(**kwargs)', '    cls.code = code']
-  if len(body) == 1:
+  if body[-1].startswith('class UExc('):
     body.append('  pass')
   leaf = 'KeyboardInterrupt()' if spec['bases'] == ['BaseExceptionGroup'] else "KeyError('k')"
   if group:
@@ -596,6 +636,7 @@ def _chain(draw):
       # configurable(s): in a plain (non-Gin) frame above them that re-raises, by the final caller
       'late': draw(st.sampled_from([[], [], ['plain'], ['caller'], ['caller', 'plain']])),
       'twin': draw(st.integers(0, 2)) == 0,
+      'again': draw(st.integers(0, 2)) == 0,     # the same class crossed a configurable before
       'origin': 'gen',
   }
 
@@ -756,7 +797,7 @@ def sweep_class_hooks(tier):
   body = {'kind': 'catch', 'scope': '', 'mut': ['args', 'dict', 'strstate'], 'reraise': 'bare'}
   hooks = [dict(setattr='all'), dict(setattr='dunder'), dict(setattr='public'),
            dict(initsub='required'), dict(initsub='optional'),
-           dict(setattr='public', initsub='optional')]
+           dict(setattr='public', initsub='optional')] + [dict(initsub=h) for h in INITSUB_REJECTING]
   shapes = [dict(bases=['Exception']),
             dict(bases=['OSError'], slots=['sa'], attrs=[['detail', 'some text']], props=['slot']),
             dict(bases=['ExceptionGroup'], group=True, new='pass', init=None)]
@@ -772,11 +813,39 @@ def sweep_class_hooks(tier):
           cases.append({'exc': plain_user_spec(argv=argv, **kw), 'site': ('fn', 'ctor')[n % 2],
                         'how': 'configurable', 'mhow': 'register', 'links': links, 'inter': 'fn',
                         'scope': ('', 'zsa/zsb')[n % 2], 'cause': cause, 'note': bool(n % 2),
+                        'again': cause, 'twin': n == 4,
                         'late': [[], ['caller'], ['plain']][n % 3], 'origin': 'sweep'})
   return cases, True
 
 
-SWEEPS = {'class-hooks': sweep_class_hooks,
+def sweep_slots(tier):
+  """__slots__ classes: every declaration order of three slots x every set/unset subset, and
+  slots split over a base class and its subclass."""
+  del tier
+  import itertools  # pylint: disable=g-import-not-at-top
+  call = {'kind': 'call', 'scope': ''}
+  layouts = []
+  for order in itertools.permutations(['sa', 'sb', 'sc']):
+    for k in range(4):
+      for unset in itertools.combinations(['sa', 'sb', 'sc'], k):
+        layouts.append(dict(slots=list(order), unset=list(unset)))
+  for base in (['ba', 'bb'], ['bb', 'ba']):
+    for sub in (['sa', 'sb'], ['sb', 'sa']):
+      for k in range(4):
+        for unset in itertools.combinations(['ba', 'bb', 'sa', 'sb'], k):
+          layouts.append(dict(baseslots=base, slots=sub, unset=list(unset)))
+  cases = []
+  for n, layout in enumerate(layouts):
+    bases = [['Exception'], ['OSError'], ['KeyError', 'AttributeError']][n % 3]
+    cases.append({'exc': plain_user_spec(bases, ('u', 3), init=('all', None)[n % 2], store=True,
+                                         props=['slot', 'args'], **layout),
+                  'site': 'fn', 'how': 'configurable', 'mhow': 'register',
+                  'links': [call] * (n % 3), 'inter': 'fn', 'scope': ('', 'zsa')[n % 2],
+                  'cause': False, 'origin': 'sweep'})
+  return cases, True
+
+
+SWEEPS = {'class-hooks': sweep_class_hooks, 'slots': sweep_slots,
           'builtin-classes': sweep_builtins, 'mi-ordered-pairs': sweep_mi_pairs,
           'brace-reprs': sweep_reprs, 'signatures': sweep_signatures, 'late-str': sweep_late_str}
 
@@ -943,7 +1012,7 @@ def mutate(e, kinds, level):
         except (AttributeError, TypeError):
           pass       # read-only on this class
   if 'slot' in kinds:
-    for name in ('sa', 'sb'):
+    for name in ('sa', 'sb', 'sc', 'ba', 'bb'):
       if stored_outside_dict(name):
         try:
           setattr(e, name, f'enriched-{name}-by-level-{level}')
@@ -1062,7 +1131,8 @@ def check_case(case):
   exc = case['exc']
   # the proxy subclass cannot be built for a class whose __init_subclass__ has a required
   # keyword: the original object may then arrive unchanged, without the message extension
-  trailer_optional = bool(exc.get('user')) and exc.get('initsub') == 'required'
+  trailer_optional = bool(exc.get('user')) and exc.get('initsub') in (
+      ['required'] + INITSUB_REJECTING)
   mod = types.ModuleType(PROBE)
   mod.__file__ = PROBE_FILE
   sys.modules[PROBE] = mod
@@ -1164,6 +1234,22 @@ def check_case(case):
       except BaseException:  # pylint: disable=broad-except
         pass
       labels.add('twin:first')
+
+  # (2c) 'again': an exception of the SAME class crossed a configurable earlier in the process
+  if case.get('again'):
+    mod.HOLD['twin'] = sample
+    if not hasattr(mod, 'pytwin'):
+      exec(compile(TWIN_SRC, PROBE_FILE + ':twin', 'exec'), mod.__dict__)  # pylint: disable=exec-used
+    first = None
+    try:
+      mod.pytwin()
+    except BaseException as caught:  # pylint: disable=broad-except
+      first = caught
+    require(isinstance(first, type(sample)) and (
+        isinstance(sample, Exception) or first is sample), 'not-same-class',
+            lambda: f'first crossing: raised {short(sample)}, caught {type(first).__name__} '
+                    f'{short(first)} of {type(first).__mro__}\n{describe()}')
+    labels.add('same-class-crossed-before')
 
   # (3) drive -------------------------------------------------------------------------------
   e2 = None
@@ -1405,8 +1491,14 @@ def check_case(case):
       labels.add('user:new-drops-args')
     if exc['kwonly']:
       labels.add('user:kwonly')
-    if exc['slots']:
+    if exc['slots'] or exc.get('baseslots'):
       labels.add('user:slots')
+      order = (exc.get('baseslots') or []) + exc['slots']
+      state = ['unset' if x in (exc.get('unset') or []) else 'set' for x in order]
+      if 'unset' in state and 'set' in state[state.index('unset'):]:
+        labels.add('user:unset-slot-declared-before-a-set-one')
+      if exc.get('baseslots') and exc['slots']:
+        labels.add('user:slots-in-base-and-subclass')
     if exc['props']:
       labels.add('user:props')
     if any(k.startswith('raises') for k in exc['props']):
@@ -1421,6 +1513,8 @@ def check_case(case):
       labels.add('user:setattr-refuses-' + exc['setattr'])
     if exc.get('initsub'):
       labels.add('user:init-subclass-' + exc['initsub'])
+      if exc['initsub'] in INITSUB_REJECTING:
+        labels.add('user:init-subclass-rejects-non-TypeError')
     if exc['str'] == 'state':
       labels.add('user:str-reads-state')
     if exc['str'] == 'needs':
